@@ -89,7 +89,7 @@ def required(tier):
         "conv_mult_pairs": 7500, "conv_offset_pairs": 40, "conv_family_calls": 1000,
         "rel_invariance_checks": 8000, "conv_log_attempts": 14,
         "arith_binary": 20000 if t else 3000, "arith_sigma_checked": 20000 if t else 3000,
-        "arith_kinds": 80, "arith_trees_checked": 5000 if t else 600, "arith_offset_cases": 300,
+        "bare_uncertain_zero_operands": 100, "arith_kinds": 80, "arith_trees_checked": 5000 if t else 600, "arith_offset_cases": 300,
         "parse_cases": 10000 if t else 1500, "parse_classes": 250, "parse_embedded": 1000 if t else 200,
         "format_cases": 10000 if t else 2000, "format_specs": 600, "format_roundtrips": 1500 if t else 300,
     }
@@ -789,6 +789,13 @@ def run_binary(spec, rec):
             if rng.random() < 0.03 and op in "+-*" and lk not in "Nu":
                 # (a bare number 0 may be added to anything in pint; 0+/-s is not that number)
                 lv = 0.0
+            if op in "+-" and "u" in (lk, rk) and rng.random() < 0.25:
+                # a BARE uncertain number whose nominal value is exactly zero: 0 +/- s is not the number 0 that
+                # may be added to anything, the unit rules apply to it
+                if lk == "u":
+                    lv, ls = 0.0, 10 ** rng.uniform(-3, 0)
+                else:
+                    rv, rs = 0.0, 10 ** rng.uniform(-3, 0)
             if lk in "NQ" and rng.random() < 0.3:
                 lv = float(int(lv)) or 1.0
             if rk in "NQ" and rng.random() < 0.3:
@@ -829,6 +836,19 @@ def run_binary(spec, rec):
         rec.case(("bin", fields["op"], lk, rk, rel, pout), nontrivial=pout == "ok")
         if pout in ("OverflowError", "ZeroDivisionError") or gout in ("OverflowError",):
             rec.count("numeric_range_skipped")
+            continue
+        if op in "+-" and any(L.kind == "u" and L.v == 0.0 and L.s > 0 for L in (A, B)):
+            rec.count("bare_uncertain_zero_operands")
+            other = B if A.kind == "u" else A
+            if env.model.dimvec(other.units):
+                # the plain twin (quantity + 0.0) is allowed; 0 +/- s next to a dimensional operand is not
+                if gout == "ok":
+                    rec.violation("arith-uncertain-zero-accepted-as-bare-zero",
+                                  dict(ctx, got=repr(got)), got_outcome=gout, **fields)
+                continue
+            # dimensionless other operand: the plain twin (quantity + 0.0) takes the bare-zero shortcut and keeps
+            # the scaled unit, the uncertain zero goes through dimensionless root units: not comparable
+            rec.count("bare_uncertain_zero_next_to_dimensionless_not_judged")
             continue
         if pout == "ok" and isinstance(nomsd(plain)[0], complex):
             rec.count("skipped_complex")
